@@ -938,3 +938,10 @@ def three_sub_hit(x, reference):
                 if x[:i] + a + x[i + 1:j] + b + x[j + 1:k] + c + x[k + 1:] in refs:
                     return True
     return False
+
+
+# ---- C09
+def v_loop(v, n):
+    import tidytcells as tt
+    d = tt.tr.get_aa_sequence(v)
+    return d.get(f"CDR{int(n)}-IMGT", "")
